@@ -112,6 +112,16 @@ func c03Operator(r *Run, c *Case, rng *Rng) {
 	ctx, cancel := context.WithCancel(context.Background())
 	defer cancel()
 	op, err := shell_operator.VerifC03Assemble(ctx, filepath.Join(dir, "hooks"), filepath.Join(dir, "tmp"))
+	// ETXTBSY: a process forked by a parallel case at the moment the script was written still holds the
+	// descriptor for an instant (the usual fork/exec race of multi-threaded programs): a harness artefact
+	for try := 0; err != nil && strings.Contains(err.Error(), "text file busy") && try < 10; try++ {
+		time.Sleep(30 * time.Millisecond)
+		op, err = shell_operator.VerifC03Assemble(ctx, filepath.Join(dir, "hooks"), filepath.Join(dir, "tmp"))
+	}
+	if err != nil && strings.Contains(err.Error(), "text file busy") {
+		c.Inconcl = "hook script busy (fork/exec race between parallel cases)"
+		return
+	}
 	if err != nil {
 		c.Oracle("opflag what=assembled:" + strings.ReplaceAll(firstLine(err.Error()), " ", "_") + " ok=false")
 		return
